@@ -15,7 +15,11 @@ fn abscissae(kind: usize, n: usize) -> Vec<f64> {
                 0 => -2.0 + 4.0 * u,
                 1 => -2.0 + 4.0 * u.sqrt().sqrt(),
                 2 => 0.8 + 1.2 * u * u,
-                _ => -2.0 * (std::f64::consts::PI * (i as f64 + 0.5) / n as f64).cos(),
+                3 => -2.0 * (std::f64::consts::PI * (i as f64 + 0.5) / n as f64).cos(),
+                // replicated measurements: every abscissa occurs twice, the copies next to each other (4) or half the
+                // data set apart (5); still at least two distinct abscissae, so the design is regular
+                4 => -2.0 + 4.0 * (i / 2) as f64 / ((n + 1) / 2 - 1).max(1) as f64,
+                _ => -2.0 + 4.0 * (i % ((n + 1) / 2)) as f64 / ((n + 1) / 2 - 1).max(1) as f64,
             }
         })
         .collect()
@@ -73,11 +77,11 @@ impl Check for Linear {
         "abscissa family x every n in 3..=60 x slope x intercept x noise level; for each data set every permutation (n<=6: all n!; above: all rotations and their reversals); signature = (family, n class, noisy?, permutations tried)".into()
     }
     fn axes(&self, t: Tier) -> Value {
-        json!({"family": ["uniform","clustered","asymmetric","chebyshev"], "n": "3..=60", "slope": t.pick(vec![0.7,-3.0], vec![0.7,-3.0,0.0,250.0]), "intercept": t.pick(vec![1.5,0.0], vec![1.5,0.0,-40.0]), "noise": [0.0, 0.05, 1.0]})
+        json!({"family": ["uniform","clustered","asymmetric","chebyshev","replicated-adjacent","replicated-apart"], "n": "3..=60", "slope": t.pick(vec![0.7,-3.0], vec![0.7,-3.0,0.0,250.0]), "intercept": t.pick(vec![1.5,0.0], vec![1.5,0.0,-40.0]), "noise": [0.0, 0.05, 1.0]})
     }
     fn points(&self, t: Tier) -> Vec<LinPt> {
         let mut v = vec![];
-        for kind in 0..4 {
+        for kind in 0..6 {
             for n in 3..=60 {
                 for &slope in &t.pick(vec![0.7, -3.0], vec![0.7, -3.0, 0.0, 250.0]) {
                     for &icpt in &t.pick(vec![1.5, 0.0], vec![1.5, 0.0, -40.0]) {
@@ -293,14 +297,21 @@ impl Check for CurveFit {
         format!("models {:?} x abscissa family x n x noise (linear models only) x every start (linear: 3 fixed and 2 near the truth; non-linear: all 2^V corners at +-20% of the truth and 2 starts within 2%) x tolerance x FD width x (damping, multiplier); both Jacobian variants run on every point; signature = (model, outcome class of each variant, iteration-count class)", MODELS)
     }
     fn axes(&self, t: Tier) -> Value {
-        json!({"models": MODELS, "family": t.pick(vec![0,2], vec![0,1,2,3]), "n": t.pick(vec![12, 60], vec![5, 12, 30, 60]), "noise": [0.0, 0.05],
+        json!({"models": MODELS, "family": t.pick(vec![0,2], vec![0,1,2,3]), "n": t.pick("12, 60, V, V+1 (V = number of parameters, at least 3)", "5, 12, 30, 60, V, V+1"), "noise": [0.0, 0.05],
                "tolerance": t.pick(vec![1e-6, 1e-12], vec![1e-6, 1e-9, 1e-12]), "h": t.pick(vec![1e-2], vec![1e-1, 1e-2, 1e-4]), "damping x mult": format!("{:?}", damp_grid(t))})
     }
     fn points(&self, t: Tier) -> Vec<FitPt> {
         let mut v = vec![];
         for model in 0..7 {
             for &kind in &t.pick(vec![0usize, 2], vec![0, 1, 2, 3]) {
-                for &n in &t.pick(vec![12usize, 60], vec![5, 12, 30, 60]) {
+                // (besides the listed counts: as many abscissae as parameters, and one more - but never fewer than 3)
+                let mut ns: Vec<usize> = t.pick(vec![12usize, 60], vec![5, 12, 30, 60]);
+                for extra in [nparams(model).max(3), (nparams(model) + 1).max(3)] {
+                    if !ns.contains(&extra) {
+                        ns.push(extra);
+                    }
+                }
+                for &n in &ns {
                     for &noise in &[0.0, 0.05] {
                         if noise != 0.0 && model > 3 {
                             continue;
